@@ -24,17 +24,16 @@ static bool c16_letter(uint8_t c) { return c == 'a' || c == 'b' || c == 'c'; }
 static void c16_state(void) {
     memset(&c16_lib, 0, sizeof c16_lib);
     VF_IN(u8, IN_rawname); VF_ASSUME(c16_letter(IN_rawname));
+    VF_IN_ARR(IN_cname); VF_IN_ARR(IN_nref); VF_IN_ARR2(IN_rtype); VF_IN_ARR2(IN_rtgt);
     memset(&c16_raw, 0, sizeof c16_raw);
     c16_rawname[0] = (char)IN_rawname; c16_rawname[1] = 0;
     c16_raw.name = c16_rawname;
     for (int i = 0; i < NC; i++) {
-        VF_IN(u8, IN_cname[i]); VF_IN(u8, IN_nref[i]);
         VF_ASSUME(c16_letter(IN_cname[i]) && IN_nref[i] <= NR);
         memset(&c16_cell[i], 0, sizeof(Cell));
         c16_cell[i].name = c16_str(IN_cname[i]);
         c16_cellp[i] = &c16_cell[i];
         for (int j = 0; j < NR; j++) {
-            VF_IN(u8, IN_rtype[i][j]); VF_IN(u8, IN_rtgt[i][j]);
             VF_ASSUME(IN_rtype[i][j] <= 2);
 #ifdef C16_NO_RAW_REFS
             VF_ASSUME(IN_rtype[i][j] != 1);
